@@ -13,6 +13,7 @@
 #include <sstream>
 #include <string>
 #include <vector>
+#include <clocale>
 #include <thread>
 #include <mutex>
 #include <condition_variable>
@@ -93,6 +94,7 @@ static std::vector<std::string> split(const std::string &s, char c)
 int main(int argc, char **argv)
 {
     std::string mode = argc > 1 ? argv[1] : "model";
+    setlocale(LC_ALL, ""); // as QCoreApplication does on Unix: the environment's locale is in force
     Worker pool[NWORKERS];
     std::string line;
     while (std::getline(std::cin, line)) {
@@ -135,18 +137,35 @@ int main(int argc, char **argv)
                     n++;
                 }
                 pipes.push_back(p); pidx.push_back(idx); plen.push_back(n);
-            } else if (tok[0] == 'm') {
+            } else if (tok[0] == 'm' || tok[0] == 'a') {
                 auto f = split(body, ':');
                 size_t p = std::stoul(f[0]);
                 QString text = unitsOf(f[3]);
                 int tag = f.size() > 4 && !f[4].empty() ? std::stoi(f[4]) : 0;
                 rec.calls.clear();
                 size_t n = 0;
+                const bool direct = tok[0] == 'a';
                 // the message is constructed (LogMessage samples the thread id there) and processed on the
                 // harness thread the scenario names; the call returns only when that has finished
                 onThread(pool, tag, [&] {
                     LogMessage m(mt(std::stoi(f[1])), QMessageLogContext("f.cpp", std::stoi(f[2]), "fn", "cat"), text);
-                    if (p < pipes.size()) { pipes[p]->process(m); n = plen[p]; }
+                    if (!direct) {
+                        if (p < pipes.size()) { pipes[p]->process(m); n = plen[p]; }
+                        return;
+                    }
+                    // step "a:": another user of the object calls its public entry point directly
+                    HandlerPtr h = p < objs.size() ? objs[p] : HandlerPtr();
+                    if (!h) return;
+                    n = 1;
+                    if (auto a = h.dynamicCast<AttrHandler>()) {
+                        const QVariantHash r = a->attributes(m);
+                        QVariant v = r.value(QStringLiteral("s%1").arg(p));
+                        rec.calls.push_back("1=" + (v.isValid() && v.type() == QVariant::Int ? std::to_string(v.toInt()) : std::string("?")));
+                    } else if (auto fl = h.dynamicCast<Filter>()) {
+                        if (fl->filter(m)) rec.calls.push_back("1");
+                    } else if (h->process(m)) {
+                        rec.calls.push_back("1");
+                    }
                 });
                 for (size_t i = 0; i < rec.calls.size(); i++) out << (i ? "," : "") << rec.calls[i];
                 if (rec.calls.size() < n) out << (rec.calls.empty() ? "" : ",") << "0"; // the handler after the last probe reached said no
